@@ -24,6 +24,9 @@
         names already taken are skipped; stageN. prefix honoured), [comp_args] (component level
         parameter substitution) and [convert] (ComponentFlowIR.convert_outputreferences_to_datareferences
         with OutputReference.split).
+   VALUE KINDS: numbers / null are read as the literal of their Python str(); a MAPPING (dictionary) is one
+   literal holding its JSON text ([is_dict]); [subst_d] = _replace_many_parameter_references with its
+   dictionary branch (a mapping is forwarded whole by a sole reference, rejected when spliced into more text).
    Shapes whose meaning depends on textual adjacency (a partial reference next to other text) give
    [Unsupp]; the generators never produce them and the checker counts them as mismatches.        *)
 From Coq Require Import String Ascii List Bool Arith NArith.
@@ -332,6 +335,48 @@ Fixpoint subst (env : list (string * value)) (ign : list string) (v : value) : s
 Definition needs_more (ign : list string) (v : value) : bool :=
   existsb (fun x => negb (mem x ign)) (refs_of v).
 
+(* MAPPING (dictionary) values.  A mapping is written by the harness as ONE literal that holds its canonical
+   JSON text; that text starts with "{" and the literal text of the fragment never does.  The branch
+   `if isinstance(fillin, dict)` of _replace_many_parameter_references: the first reference (left to right, names
+   in [ign] skipped) that is bound to a mapping ends the substitution -- with the mapping itself when the string
+   is nothing but that reference (start == 0, match.start() == 0, match.end() == len(what): everything before it
+   has been replaced by the empty text and nothing but empty text follows), with a ValueError otherwise
+   ("Reference to a dictionary parameter ... in a string that contains more characters"). *)
+Definition is_dict (v : value) : bool :=
+  match v with [Lit s] => prefixb "{" s | _ => false end.
+Definition empty_lit (t : tok) : bool := match t with Lit s => String.eqb s "" | _ => false end.
+
+Inductive dref := DNone | DWhole (vx : value) | DSplice.
+
+(* [pre]: the text before the current token (after substitution) is empty *)
+Fixpoint dict_ref (env : list (string * value)) (ign : list string) (pre : bool) (v : value) : dref :=
+  match v with
+  | [] => DNone
+  | Lit s :: r => dict_ref env ign (pre && String.eqb s "") r
+  | Param x :: r =>
+    if mem x ign then dict_ref env ign false r else
+    match lookup x env with
+    | Some vx => if is_dict vx then (if pre && forallb empty_lit r then DWhole vx else DSplice)
+                 else dict_ref env ign (pre && forallb empty_lit vx) r
+    | None => DNone                         (* unknown parameter: [subst] reports it *)
+    end
+  | POut x _ _ :: r =>
+    if mem x ign then dict_ref env ign false r else
+    match lookup x env with
+    | Some vx => if is_dict vx then DSplice else dict_ref env ign false r
+    | None => DNone
+    end
+  | Out _ _ :: r => dict_ref env ign false r
+  end.
+
+(* _replace_many_parameter_references with its dictionary branch; ValueError = SUnknown *)
+Definition subst_d (env : list (string * value)) (ign : list string) (v : value) : sres :=
+  match dict_ref env ign true v with
+  | DSplice => SUnknown
+  | DWhole vx => SOk vx
+  | DNone => subst env ign v
+  end.
+
 (* replace_parameter_references: walk up one scope per round *)
 Fixpoint resolve_loop (fuel : nat) (scs : list scope) (cur : list string) (ign : list string) (v : value) : sres :=
   if needs_more ign v then
@@ -339,7 +384,7 @@ Fixpoint resolve_loop (fuel : nat) (scs : list scope) (cur : list string) (ign :
     | O => SUnknown
     | S f => match find_scope (parent_loc cur) scs with
              | None => SUnknown
-             | Some p => match subst (s_pars p) ign v with
+             | Some p => match subst_d (s_pars p) ign v with
                          | SOk v' => if well_shaped v' then resolve_loop f scs (parent_loc cur) ign v' else SUnsupp
                          | other => other
                          end
@@ -516,7 +561,7 @@ Definition comp_index (N : ns) (c : comp) : loc := template_location N (TC c).
 Definition comp_args (N : ns) (sc : scope) (c : comp) : value * list loc * bool :=
   let here := comp_index N c ++ [LS "command"; LS "arguments"] in
   if needs_more (c_vars c) (c_args c) then
-    match subst (s_pars sc) (c_vars c) (c_args c) with
+    match subst_d (s_pars sc) (c_vars c) (c_args c) with
     | SOk v => if needs_more (c_vars c) v then (c_args c, [here], false) else (v, [], false)
     | SUnknown => (c_args c, [here], false)
     | SUnsupp => (c_args c, [], true)
